@@ -1743,3 +1743,24 @@ Qed.
 
 Lemma clone_keeps_fingerprint c : c_fp (do_clone c) = c_fp c /\ c_tls (do_clone c) = c_tls c.
 Proof. split; reflexivity. Qed.
+
+(* ---------- transport middleware (round 7) ---------- *)
+Lemma gen_clone_middleware : clone_middleware_bound_to_clone = true.
+Proof. reflexivity. Qed.
+
+(* installing a pass-through transport middleware changes nothing the dispatch or a handshake depends on, and a
+   sequence with such installations anywhere (before or after Clone) behaves like the one without them *)
+Fixpoint no_wrap (ops : list op) : list op :=
+  match ops with
+  | [] => []
+  | OWrap :: r => no_wrap r
+  | o :: r => o :: no_wrap r
+  end.
+Lemma wrap_transparent g e ops : forall c, snd (run_gen g e c ops) = snd (run_gen g e c (no_wrap ops)).
+Proof.
+  induction ops as [|o r IH]; intros c; [reflexivity|].
+  destruct o; try (cbn [no_wrap run_gen];
+    match goal with |- context [step_gen g e c ?o] => destruct (step_gen g e c o) as [x c1] end;
+    specialize (IH c1); destruct (run_gen g e c1 r) as [xs c2]; destruct (run_gen g e c1 (no_wrap r)) as [ys c3]; exact IH).
+  cbn [no_wrap run_gen step_gen]. specialize (IH c). destruct (run_gen g e c r) as [xs c2]. exact IH.
+Qed.
